@@ -1,5 +1,6 @@
 import LoguruModel.Emit.Model
 import LoguruModel.Emit.Nested
+import LoguruModel.Emit.PreLock
 import LoguruModel.Driver
 open Emit Py
 
@@ -234,8 +235,15 @@ def step (line : String) : String :=
         let w := cfgs.foldl (fun w c => addW c w) ({} : World)
         -- registry-level re-entrancy (Emit/Nested.lean); when no sink re-enters, the handler-level model
         -- (Emit/Model.lean, the one `emit_characterised` & co speak about) must give the same answer
-        let nested := "|".intercalate (runGroups (stepWN env d) groups w)
-        if ree.isEmpty then
+        -- Q=<i,h,j;...>: the filter of handler h logs message j while it is asked about message i (Emit/PreLock.lean)
+        let pres : List (List Nat) := match field toks "Q" with
+          | some q => (allSome ((items q ";").map (fun s => nats s ","))).getD []
+          | none => []
+        let pre : Nat → Nat → List Nat := fun i hh =>
+          (pres.filter (fun p => p.head? = some i ∧ p[1]? = some hh)).filterMap (fun p => p[2]?)
+        let nested := "|".intercalate
+          (if pres.isEmpty then runGroups (stepWN env d) groups w else runGroups (stepWNP env pre d) groups w)
+        if ree.isEmpty && pres.isEmpty then
           let flat := "|".intercalate (runGroups (stepW env d) groups w)
           if flat = nested then nested else "LAYER-MISMATCH " ++ flat ++ " /// " ++ nested
         else nested
